@@ -426,3 +426,15 @@ Proof.
   split; [allpos_tac|]. split; [allpos_tac|]. split; [cbn; lra|]. split; [cbn; lra|].
   split; [reflexivity | apply dok_some; reflexivity].
 Qed.
+
+Example unc_quadrature_core_nonvacuous :
+  length [5; 6] = length [1; 2] /\ dok (Some [1; 1]) (length [1; 2]).
+Proof. exact split_core_nonvacuous. Qed.
+
+Example returned_is_transform_of_corrected_S_nonvacuous :
+  allpos [1; 2] /\ length [5; 6] = length [1; 2] /\ dok None (length [1; 2]).
+Proof. split; [allpos_tac|]. split; [reflexivity | apply dok_none]. Qed.
+
+(* removed_is_lowr_transform, beyond_cutoff_irrelevant_variants and
+   returned_is_transform_of_corrected have no hypotheses (the first and the last) or only the
+   crop equation illustrated above. *)
